@@ -516,6 +516,8 @@ def _entity_level(out, attrs, spec, case):
     if mediatype and ent2.media_type != mediatype:
         out.fail("entity", "entity:mediatype_differs", {"got": ent2.media_type})
     if not out.violations:
+        _forward_level(out, cls, ent, ent2, spec, case)
+    if not out.violations:
         _typed_level(out, spec, case, kw)
     if not out.violations:
         _attribute_setters(out, spec, case)
@@ -545,6 +547,52 @@ def _entity_level(out, attrs, spec, case):
         cmp_message(spec, got1, "message", problems)
         if problems:
             out.fail("entity", "entity:edit_of_copy_changed_original:%s" % problems[0][0], {"path": problems[0][0]})
+
+
+def _forward_level(out, cls, ent, ent2, spec, case):
+    """forward(to) - what the echo client does with a received message - gives an independent message with the same content:
+    it serialises to the original content, and changing the copy (or the original) afterwards leaves the other one as it was"""
+    for what, source in (("composed", ent), ("received", ent2)):
+        try:
+            fwd = source.forward("4922222@s.whatsapp.net")
+            got = extract_message(cls.fromProtocolTreeNode(fwd.toProtocolTreeNode()).message_attributes)
+        except Exception as e:
+            out.fail("entity", "entity:forward:%s:raises:%s" % (what, type(e).__name__), {"error": repr(e)[:200]})
+            return
+        problems = []
+        cmp_message(spec, got, "message", problems)
+        if problems:
+            out.fail("entity", "entity:forward:%s:content_%s:%s" % (what, problems[0][1], problems[0][0]), {"path": problems[0][0]})
+            return
+        if fwd.getTo() != "4922222@s.whatsapp.net" or fwd.getId() == source.getId():
+            out.fail("entity", "entity:forward:%s:addressing" % what, {"to": fwd.getTo()})
+            return
+        if case.get("edit"):
+            # change the forwarded copy: the message it was made from must still serialise to its own content
+            try:
+                a2 = build_message(case["edit"])
+                for name in MESSAGE_FIELDS:
+                    obj_f, obj_n = getattr(fwd.message_attributes, name), getattr(a2, name)
+                    if obj_f is not None and obj_n is not None and type(obj_f) is type(obj_n) and not isinstance(obj_f, str):
+                        # same content kind on both sides: change it field by field, in place
+                        for attr in [a for a in dir(obj_n) if not a.startswith("_") and isinstance(getattr(type(obj_n), a, None), property)]:
+                            try:
+                                setattr(obj_f, attr, getattr(obj_n, attr))
+                            except AttributeError:
+                                pass
+                    else:
+                        setattr(fwd.message_attributes, name, obj_n)
+                back = extract_message(cls.fromProtocolTreeNode(source.toProtocolTreeNode()).message_attributes)
+            except Exception as e:
+                out.fail("entity", "entity:forward:%s:edit_raises:%s" % (what, type(e).__name__), {"error": repr(e)[:200]})
+                return
+            problems = []
+            cmp_message(spec, back, "message", problems)
+            if problems:
+                out.fail("entity", "entity:forward:%s:editing_the_copy_changed_the_original:%s" % (what, problems[0][0]), {"path": problems[0][0]})
+                return
+            out.label("forward_then_edit")
+    out.label("forward")
 
 
 def _attribute_setters(out, spec, case):
